@@ -350,12 +350,11 @@ fn run_family(check: &Check, fam: &Fam, kw: &(dyn Fn(&str) -> Option<(u16, u16)>
 }
 
 fn main() {
-    vx_core::quiet_error_backtraces();
     let check = Check::from_args("C14", Level::Exploration);
     let dict = DictRef::load();
     // full 14-symbol alphabet up to full_max bytes; the longer strings (up to the 11 bytes of the longest
     // accepted form) over the 7-symbol alphabet (quick) / the 10 symbols that matter to tags (thorough)
-    let full_max: usize = std::env::var("VERIF_C14_FULLMAX").ok().and_then(|s| s.parse().ok()).unwrap_or(check.pick(8, 10));
+    let full_max: usize = std::env::var("VERIF_C14_FULLMAX").ok().and_then(|s| s.parse().ok()).unwrap_or(check.pick(8, 9));
     let wide_long = check.thorough();
     let sel_str_max: usize = check.pick(6, 7);
     check.set_rule(&format!("tag family: boundary set = all 65 536 groups x elements {{0000,0010,00FF,1000,FFFF,=group}} and all 65 536 elements x the same groups, each in 3 forms x 3 hex cases through Tag::from_str and parse_tag, plus Display round trip; thorough adds all 2^32 tags in the Display form and the two other forms (upper case). str family: every string over the 14 symbols {{'7','c','E','g','(',')',',','.','[',']',' ', U+00E9, U+20AC, U+1F600}} of byte length <= {full_max} through Tag::from_str against a byte-level recogniser of the three forms (and <= {sel_str_max} bytes through parse_selector against a recogniser of the documented selector syntax), plus every string of byte length {}..11 over {}. sel family: all selectors of depth <= {} over 4 tags (standard with keyword, repeating-group keyword, private, unknown) x item indices {{0,1,10,4294967295}}, printed by Display and in every alternative spelling (3 tag forms, keyword, omitted [0]). kw family: every table keyword as single step, as nested step with index and as leaf under a nested step. Also every near miss of a well-formed tag text (<= 2 length-preserving symbol substitutions, one insertion, one deletion, full alphabet). A case is one string; distinct by its bytes; non-trivial = the parser ran on it", full_max + 1, if wide_long { "the 10 symbols without '.','[',']',' '" } else { "the reduced alphabet {'7','c','g','(',')',',', U+00E9}" }, check.pick(3, 4)));
